@@ -35,6 +35,10 @@ func run(c *vk.Ctx) {
 	if !sem.Calibrate(c) {
 		return
 	}
+	if c.Replay != "" {
+		sem.ReplayList(c, c.Replay)
+		return
+	}
 	base, err := drive.New(drive.Cfg{})
 	if err != nil {
 		c.HarnessError("server: %v", err)
@@ -85,7 +89,7 @@ func run(c *vk.Ctx) {
 	if err2 == nil {
 		defer trunc2.Close()
 	}
-	nCases := c.Pick(30, 400)
+	nCases := c.Pick(120, 1200)
 	sem.RunCases(c, base, "mem", nCases, gen.Options{}, 4, 8, func(i int, r *rand.Rand, p *sem.Prepared, contextual []*openfgav1.TupleKey) {
 		oneCase(c, i, r, p, contextual, servers, []*drive.Srv{trunc, trunc2})
 	})
